@@ -244,7 +244,7 @@ CHECKS["C04"] = dict(
     technique="Coq proofs by induction over relay lists on an abstract-AEAD model + lockstep differential testing evaluated in Coq + oracle",
     design="5/C04")
 CHECKS["C05"] = dict(
-    text="Coq proofs (17 theorems): no cell of any content or origin changes routing entries through the data plane (only counters move); "
+    text="Coq proofs (18 theorems): no cell of any content or origin changes routing entries through the data plane (only counters move); "
          "handlers see the header's circuit id; data leaves only through the exit socket whose key opened it and reaches only the circuit "
          "of the originator whose keys opened it, from that circuit's first hop; a create under an id in use changes nothing; a destroy "
          "removes an entry only when signed by the stored neighbour, and only at the next removal tick; the table invariant holds and "
@@ -253,12 +253,12 @@ CHECKS["C05"] = dict(
          "live ids and the destroy matrix agree with the model event by event; oracle from topology, tagged payloads and object identities.",
     note="AEAD ideal; destroy signature check trusted as in C01; key agreement, payload parsing and candidate choice are oracles; random-id "
          "collisions (2^-32) assumed away; originator-side circuit construction is C08's; do_ping disabled in harness nodes. 'Relay "
-         "entries come in inverse pairs' holds at creation only (not an invariant of the code). Model follows fix 6c217ee.",
+         "entries come in inverse pairs' holds at creation only (not an invariant of the code). Model follows fixes 6c217ee, f87da90 (created_never_overwrites_relay).",
     technique="Coq invariant proof over operation histories + inversion lemmas on the data-plane model + lockstep differential testing",
     design="5/C05")
 CHECKS["C11"] = dict(
-    text="Coq proofs (17 theorems) over models of the endpoint listener table (incl. the TunnelEndpoint and StatisticsEndpoint wrappers), "
-         "of TaskManager at the level of asyncio's ready queue, and of their composition per overlay instance: once a complete unload() "
+    text="Coq proofs (20 theorems) over models of the endpoint listener table (incl. the TunnelEndpoint and StatisticsEndpoint wrappers), "
+         "of TaskManager at the level of asyncio's ready queue, of the IPv8 service's overlay/strategy lists (unload_overlay, on_tick), and of their composition per overlay instance: once a complete unload() "
          "has run - with anything interleaved - the overlay is never called by the endpoint again, runs no task or timeout, answers every "
          "registration with a completed future, creates no task, keeps every exit socket closed; while loaded a name with an active task "
          "is refused and replace_task registers the new task only after the old one is done. The unload() step lists of all 8 shipped "
